@@ -156,6 +156,33 @@ class CursorMod:
                 pw = None
         return ("abs", "cursor", orient, nq, None, pw), role
 
+    def take_next(self, I, st, a0, cur, c, sp):
+        """the next token is taken from the sequence (Iterator::next / Vec::pop): one outcome per possible head"""
+        if (c.endswith("pop") and cur[2] != "rev") or (not c.endswith("pop") and cur[2] != "fwd"):
+            self.report("O-conserve/order", "tokens are taken from the wrong end of the sequence", "%s on %s" % (c, cur[2]), sp)
+        place = self.cursor_place(I, st, a0)
+        out = []
+        for k, role, ncur in self.decide_head(cur):
+            if k == EOF:
+                s2 = I.write(st, place, ncur) if place else st
+                out.append((OK, none(), s2))
+                continue
+            ncur2, role2 = self.consume(ncur, k)
+            self.stats["consume"] += 1
+            if role2:
+                self.roles_seen.add(role2)
+            s2 = I.write(st, place, ncur2) if place else st
+            s2 = self.tick(s2)
+            pend = s2.mon.get("pending")
+            if pend is not None and self.mon_conserve:
+                self.report("O-conserve/drop", "token %s is consumed while the previously consumed %s was never added to the tree" % (k, pend[0]), "", sp)
+            if self.mon_conserve or self.keep_pending:
+                s2 = s2.setmon("pending", (k, role2))
+            if self.on_consume is not None:
+                s2 = self.on_consume(self, I, s2, k, role2, sp)
+            out.append((OK, some(("tuple", (self.kind_val(k), ("abs", "toktext", k)))), s2))
+        return out
+
     def tick(self, st):
         s = st.copy()
         for key in list(s.mon):
@@ -215,30 +242,59 @@ class CursorMod:
                 return out
             # ---- consume
             if c in ("alloc::vec::Vec::<T, A>::pop",) or c.endswith("as core::iter::traits::iterator::Iterator>::next") or c == "core::iter::traits::iterator::Iterator::next":
-                if (c.endswith("pop") and cur[2] != "rev") or (not c.endswith("pop") and cur[2] != "fwd"):
-                    self.report("O-conserve/order", "tokens are taken from the wrong end of the sequence", "%s on %s" % (c, cur[2]), sp)
+                return self.take_next(I, st, a0, cur, c, sp)
+            if c == "core::iter::adapters::peekable::Peekable::<I>::next_if" and cur[2] == "fwd":
+                # look at the head; consume it iff the predicate holds
                 place = self.cursor_place(I, st, a0)
                 out = []
+                self.stats["peek"] += 1
                 for k, role, ncur in self.decide_head(cur):
+                    s2 = I.write(st, place, ncur) if place else st
                     if k == EOF:
-                        s2 = I.write(st, place, ncur) if place else st
                         out.append((OK, none(), s2))
                         continue
-                    ncur2, role2 = self.consume(ncur, k)
-                    self.stats["consume"] += 1
-                    if role2:
-                        self.roles_seen.add(role2)
-                    s2 = I.write(st, place, ncur2) if place else st
-                    s2 = self.tick(s2)
-                    pend = s2.mon.get("pending")
-                    if pend is not None and self.mon_conserve:
-                        self.report("O-conserve/drop", "token %s is consumed while the previously consumed %s was never added to the tree" % (k, pend[0]), "", sp)
-                    if self.mon_conserve or self.keep_pending:
-                        s2 = s2.setmon("pending", (k, role2))
-                    if self.on_consume is not None:
-                        s2 = self.on_consume(self, I, s2, k, role2, sp)
-                    out.append((OK, some(("tuple", (self.kind_val(k), ("abs", "toktext", k)))), s2))
+                    item = ("tuple", (self.kind_val(k), ("abs", "toktext-peek", k)))
+                    for ctl, r, s3 in I.apply(args[1], [item], s2, n):
+                        if ctl != OK:
+                            out.append((ctl, r, s3))
+                        elif r == ("bool", True):
+                            out.extend(self.take_next(I, s3, a0, self.get_cursor(I, s3, a0), "core::iter::traits::iterator::Iterator::next", sp))
+                        elif r == ("bool", False):
+                            out.append((OK, none(), s3))
+                        else:
+                            out.append((OK, none(), s3))
+                            out.extend(self.take_next(I, s3, a0, self.get_cursor(I, s3, a0), "core::iter::traits::iterator::Iterator::next", sp))
                 return out
+            if c in ("core::iter::traits::iterator::Iterator::find", "core::iter::traits::iterator::Iterator::any", "core::iter::traits::iterator::Iterator::position") and cur[2] == "fwd" and a0[0] == "ref":
+                # take tokens until the predicate holds (that token is taken too) or the sequence ends
+                out, seen, work = [], set(), [st]
+                while work:
+                    s = work.pop()
+                    fz = s.freeze()
+                    if fz in seen:
+                        continue
+                    seen.add(fz)
+                    if len(seen) > 20000:
+                        raise hirai.Violation("state explosion in Iterator::find over the token sequence at " + sp)
+                    for ctl, v, s2 in self.take_next(I, s, a0, self.get_cursor(I, s, a0), "core::iter::traits::iterator::Iterator::next", sp):
+                        if ctl != OK:
+                            out.append((ctl, v, s2))
+                            continue
+                        if v == none():
+                            out.append((OK, none() if c.endswith(("find", "position")) else ("bool", False), s2))
+                            continue
+                        item = v[2][0]
+                        for ctl2, r, s3 in I.apply(args[1], [item], s2, n):
+                            if ctl2 != OK:
+                                out.append((ctl2, r, s3))
+                            elif r == ("bool", True):
+                                out.append((OK, some(item) if c.endswith("find") else (("bool", True) if c.endswith("any") else some(unk("position"))), s3))
+                            elif r == ("bool", False):
+                                work.append(s3)
+                            else:
+                                out.append((OK, some(item) if c.endswith("find") else (("bool", True) if c.endswith("any") else some(unk("position"))), s3))
+                                work.append(s3)
+                return I.dedupe(out)
             if c in ("alloc::vec::Vec::<T, A>::is_empty", "core::slice::<impl [T]>::is_empty"):
                 place = self.cursor_place(I, st, a0)
                 out = []
